@@ -30,7 +30,8 @@ pub fn opts(c: &Case, n: usize, dense: bool, t_eval: Option<Vec<f64>>) -> RunOpt
         method: c.method,
         rtol: c.rtol.fit(n),
         atol: c.atol.fit(n),
-        first_step: if c.method == Meth::RK4 { Some(sp.len() * sp.dir() / 64.0) } else { None },
+        // RK4: fixed step; half of the time it does not divide the span, so that the last step is a clipped one
+        first_step: if c.method == Meth::RK4 { Some(sp.len() * sp.dir() / if c.analytic_jac { 64.0 } else { 63.37 }) } else { None },
         max_step: c.max_step.map(|f| f * sp.len()),
         max_steps: None,
         t_eval,
